@@ -55,6 +55,7 @@ def script_strategy():
         "evtrace": st.booleans(),
         "hooks": st.booleans(),
         "pauses": st.lists(st.integers(1, 30), max_size=4),
+        "hookbps": st.lists(st.tuples(st.integers(1, 20), bp_strategy()).map(list), max_size=2),   # breakpoints armed from inside an event hook
         "bps": st.lists(bp_strategy(), max_size=3),
         "actions": st.lists(action, max_size=12),
     })
@@ -106,6 +107,7 @@ class ControlModel:
         self.pause_req = False
         self.steps = None
         self.pauses = set(pauses)
+        self.hook_bps = {}       # processed-event index -> [breakpoint specs armed by an event hook at that event]
         self.cause = None
 
     def command(self, steps):
@@ -131,6 +133,7 @@ class ControlModel:
             if self.k in self.pauses:
                 self.pause_req = True
             ev = self.P[self.k - 1]
+            self.bps.extend(self.hook_bps.pop(self.k, []))     # hooks run before the breakpoint check of the same event
             hit = [b for b in self.bps if bp_holds(b, self.k, ev)]
             if hit:
                 self.cause = "breakpoint/" + hit[0]["k"]
@@ -208,15 +211,22 @@ def execute_observe(obl):
                 counter = [0]
                 seen_adv = []
 
+                ids = []          # [(bp_id, spec)] in registration order, mirrors model.bps
+                hook_map = {}
+                for k_, spec_ in obs.get("hookbps", []):
+                    if isinstance(k_, int) and k_ >= 1:
+                        hook_map.setdefault(k_, []).append(dict(spec_))
+                model.hook_bps = {k_: list(v_) for k_, v_ in hook_map.items()}
+
                 def on_ev(ev):
                     counter[0] += 1
+                    for spec_ in hook_map.pop(counter[0], []):
+                        ids.append((ctl.add_breakpoint(make_bp(spec_)), spec_))
                     if counter[0] in model.pauses:
                         ctl.pause()
                 ctl.on_event(on_ev)
                 if obs.get("hooks"):
                     ctl.on_time_advance(lambda t: seen_adv.append(t.nanoseconds))
-                ids = []          # [(bp_id, spec)] in registration order, mirrors model.bps
-
                 def add_bp(spec):
                     ids.append((ctl.add_breakpoint(make_bp(spec)), spec))
                     model.bps.append(spec)
@@ -297,6 +307,8 @@ def execute_observe(obl):
                             ids.clear()
                             model.bps.clear()
                             model.pauses.clear()
+                            model.hook_bps.clear()
+                            hook_map.clear()
                         model.command(None)
                         ctl.resume()
                 if obs.get("hooks") and seen_adv != sorted(seen_adv):
@@ -382,7 +394,7 @@ def execute_reset(case):
 
 
 RULE = ("C01/C02 program generator (plus handlers that hold received Event objects and re-emit them later, as queues do with payloads) x observation script {control attached, in-memory trace recorder, event tracing, hooks, pause "
-        "requests issued from inside an event hook at generated event indices, initial breakpoints, and a list of actions taken at "
+        "requests and breakpoints issued from inside an event hook at generated event indices, initial breakpoints, and a list of actions taken at "
         "successive pauses: step(1..7) | resume | add breakpoint(Time/EventCount/EventType/Condition, one-shot or persistent) | remove | "
         "clear}; non-trivial = the run was paused at least once and the program has at least two processed events on one timestamp")
 
